@@ -7,12 +7,12 @@ before the backend's `Mail` is called (`handleMail` answers a refusal of the swi
 namespace SmtpV.Server
 open SmtpV SmtpV.Spec SmtpV.Text SmtpV.Props.C14
 
-theorem mailParams_size_over (cfg : Cfg) (rest : List (Bytes × Bytes)) (o : MailOpts) (bm : Bool) (n : Nat) (h : n < 2 ^ 32)
+theorem mailParams_size_over (cfg : Cfg) (rest : List (Bytes × Bytes)) (o : MailOpts) (bm : Bool) (n : Nat) (h : n < 2 ^ 63)
     (hm : cfg.maxMsg > 0 ∧ n > cfg.maxMsg) :
     Server.mailParams cfg (("SIZE".b, natToDec n) :: rest) o bm = .refuse 552 ⟨5, 3, 4⟩ "Max message size exceeded" := by
   rw [Server.mailParams]
   have hk : ("SIZE".b == "SIZE".b) = true := by decide +kernel
-  simp only [hk, if_true, parseUintDec_natToDec n h]
+  simp only [hk, if_true, parseUintDec_natToDec n 63 h]
   have : (decide (cfg.maxMsg > 0) && decide (n > cfg.maxMsg)) = true := by simp [hm.1, hm.2]
   simp only [this, if_true]
 
